@@ -365,7 +365,10 @@ func edgeLeadsStraightTo(from *ssa.BasicBlock, si int, isBad func(*ssa.Return) b
 		last := f.b.Instrs[len(f.b.Instrs)-1]
 		if r, ok := last.(*ssa.Return); ok {
 			nRet++
-			return isBad(r)
+			retPhiEnv = env
+			bad := isBad(r)
+			retPhiEnv = nil
+			return bad
 		}
 		if _, isPanic := last.(*ssa.Panic); isPanic {
 			return true
